@@ -70,12 +70,13 @@ def search(ctx, n):
 def run(ctx):
     ctx.trusted += corecheck.TRUSTED
     ctx.assumptions += ["theorems are exact algebra given the generated 4-D Christoffel symbols; that those symbols are the Christoffel symbols of the 4-metric is C04",
-                        "projector entries h^a_b, h^{ab} for u = n are hypotheses of the theta/shear/omega theorems (they follow from the 3+1 form of the inverse metric, C04/C08)",
+                        "eulerian_kinematics is end to end: projector entries are derived from the 3+1 form of the inverse metric (C08b), every intermediate key is the code's own formula",
                         "convergence order is checked by the two-resolution oracle only"]
     r = corecheck.regen_and_validate(ctx, NEEDED)
     if r is not None and not ctx.broken():
         ctx.prove(MODULE, THEOREMS, timeout=2400)
-        ctx.forbidden_scan(["AurelVerif/Props/C19.lean", "AurelVerif/Props/C09.lean", "AurelVerif/Gen/CoreCurv.lean"])
+        ctx.prove("AurelVerif.Props.C19b", ["AurelVerif.C19.hmixed4_eulerian", "AurelVerif.C19.eulerian_kinematics"], timeout=2400)
+        ctx.forbidden_scan(["AurelVerif/Props/C19.lean", "AurelVerif/Props/C19b.lean", "AurelVerif/Props/C08b.lean", "AurelVerif/Props/C09.lean", "AurelVerif/Gen/CoreCurv.lean"])
         if ctx.tier == "thorough":
             ctx.leanchecker([MODULE])
     with np.errstate(all="ignore"):
@@ -94,5 +95,5 @@ MANIFEST = {
     "category": "proof",
     "technique": "Lean 4 theorems (ring / field_simp) about the kinematic formulas regenerated from core.py by symbolic execution, specialised to the code's default fluid state; translation validation each run; two-resolution oracle on the real code as failing-input search",
     "text": "Proof, for every lapse != 0 (time dependent), shift, symmetric K and every difference operator with D0=0, D(-f)=-Df: with the default fluid state u^mu = n^mu and u_mu = n_mu; the generated spacetime gradient of u is, component by component, -K_mu_nu - n_mu d_nu ln(alpha) given the generated time row of the 4-D Christoffel symbols (whose closed form is proven too); the acceleration is d_i ln(alpha) with a.n = 0; the projected gradient is -K (4-D extension), hence vorticity 0, expansion -K, shear -A_ij.",
-    "note": "Trusted: Lean kernel + 3 standard axioms; the symbolic-execution translator (validated each run); exact arithmetic. The projector entries for u = n enter theta/shear/omega theorems as hypotheses; discretisation error and convergence order are only watched by the oracle (N=10 vs N=20).",
+    "note": "Trusted: Lean kernel + 3 standard axioms; the symbolic-execution translator (validated each run); exact arithmetic. The end-to-end theorem eulerian_kinematics derives the projector entries too (from uniqueness of the inverse metric); discretisation error and convergence order are only watched by the oracle (N=10 vs N=20).",
 }
